@@ -127,21 +127,28 @@ LawGenWeight(p, T, cons, w) == Close(w, GenWt(ExecT(p, T), DOMAIN cons))
 \* C05: update.  tags[j] \in {"N","U"} honest taint of argument j.
 RsD(p, post, tags, D) == Chg(p, post.args, [j \in 1..Len(tags) |-> tags[j] = "U"], post.choices, D).rs
 Rs(p, post, tags, cons) == RsD(p, post, tags, DOMAIN cons)
-Fresh(p, pre, post, tags, cons) ==
-  {a \in DOMAIN post.choices : a \notin DOMAIN cons /\ (a \notin DOMAIN pre.choices \/ UnderAny(a, Rs(p, post, tags, cons)))}
+\* td = the set of addresses whose request entry may taint what follows: the effectively constrained addresses, plus
+\* -- when mask flags are traced -- the masked-off ones (the implementation cannot know a traced flag is False and
+\* tags the value UnknownChange, which a downstream switch index documents as a resampling trigger).
+FreshD(p, pre, post, tags, cons, td) ==
+  {a \in DOMAIN post.choices : a \notin DOMAIN cons /\ (a \notin DOMAIN pre.choices \/ UnderAny(a, RsD(p, post, tags, td)))}
+Fresh(p, pre, post, tags, cons) == FreshD(p, pre, post, tags, cons, DOMAIN cons)
 LawUpdArgs(post, args2) == post.args = args2
 LawUpdConstrained(post, cons) == \A a \in DOMAIN cons \cap DOMAIN post.choices : post.choices[a] = cons[a]
-LawUpdKept(p, pre, post, tags, cons) ==
+LawUpdKeptD(p, pre, post, tags, cons, td) ==
   \A a \in DOMAIN post.choices \cap DOMAIN pre.choices :
-     (a \notin DOMAIN cons /\ ~UnderAny(a, Rs(p, post, tags, cons))) => post.choices[a] = pre.choices[a]
-LawUpdWeight(p, pre, post, tags, cons, w) ==
-  Fresh(p, pre, post, tags, cons) = {} => Close(w, post.score - pre.score)
-LawUpdDiscard(p, pre, post, tags, cons, disc) ==
+     (a \notin DOMAIN cons /\ ~UnderAny(a, RsD(p, post, tags, td))) => post.choices[a] = pre.choices[a]
+LawUpdKept(p, pre, post, tags, cons) == LawUpdKeptD(p, pre, post, tags, cons, DOMAIN cons)
+LawUpdWeightD(p, pre, post, tags, cons, td, w) ==
+  FreshD(p, pre, post, tags, cons, td) = {} => Close(w, post.score - pre.score)
+LawUpdWeight(p, pre, post, tags, cons, w) == LawUpdWeightD(p, pre, post, tags, cons, DOMAIN cons, w)
+LawUpdDiscardD(p, pre, post, tags, cons, td, disc) ==
   /\ \A a \in DOMAIN cons \cap DOMAIN pre.choices \cap DOMAIN post.choices : a \in DOMAIN disc   \* overwritten => recorded
   /\ \A a \in DOMAIN disc :
         \/ /\ a \in DOMAIN pre.choices /\ disc[a] = pre.choices[a]                                \* holds the previous values
-           /\ (a \in DOMAIN cons \/ a \notin DOMAIN post.choices \/ UnderAny(a, Rs(p, post, tags, cons)))
+           /\ (a \in DOMAIN cons \/ a \notin DOMAIN post.choices \/ UnderAny(a, RsD(p, post, tags, td)))
         \/ (a \notin DOMAIN pre.choices /\ a \in DOMAIN post.choices)   \* newly revealed address (mask False->True): its previous value was not observable
+LawUpdDiscard(p, pre, post, tags, cons, disc) == LawUpdDiscardD(p, pre, post, tags, cons, DOMAIN cons, disc)
 
 \* C06: the backward request restores
 LawUndoRestore(pre, undo) == undo.choices = pre.choices /\ Close(undo.score, pre.score) /\ undo.ret = pre.ret /\ undo.args = pre.args
